@@ -90,6 +90,7 @@ def run(ctx):
     target = ctx.n(14, 400)
     done = k = 0
     bad = []
+    cv_lines, cv_real = [], []
     f_ok = f_fail = 0
     while done < target and k < target * 10:
         if recorded:
@@ -117,6 +118,13 @@ def run(ctx):
             bad.append({"desc": desc, "complaint": "exception %s: %s" % (type(e).__name__, str(e)[:150]), "atoms": crystals.atoms_to_json(a)})
             continue
         name = type(c).__name__
+        if all(r["basis"] is None or r["region"] is not None for r in rec.calls):
+            from geom_common import fs as _fs
+            regs = ["none" if r["basis"] is None else "%d.%d.%d.%d" % (len(r["basis"]), int(np.sum(r["region"].get_connected_directions())), int(bool(r["region"].is_2d)), i + 1)
+                    for i, r in enumerate(rec.calls)]
+            cv_lines.append("classify 2 %d %s %s" % (len(a), _fs(0.5), ";".join(regs) or "-"))
+            chosen = [i + 1 for i, r in enumerate(rec.calls) if r["region"] is not None and r["region"] is getattr(c, "region", None)]
+            cv_real.append((name, chosen[0] if chosen else 0))
         ctx.case(("c18", json.dumps(desc, sort_keys=True, default=str)), nontrivial=True, sample=dict(desc, result=name) if len(ctx.samples) < 5 else None)
         holds = any(r["basis"] is not None and set(r["basis"]) == set(range(len(a))) - A for r in rec.calls)
         f_ok += holds
@@ -141,6 +149,25 @@ def run(ctx):
     import finder_helpers
     finder_helpers.check(ctx, broken)
     region_model.check(ctx, broken, region_rec.records)
+    # the dispatch of classify and the cross-validation over seeds / tolerances (which region wins) against the Lean model, on prepared
+    # region answers (shared with C17) and on the region answers recorded in the runs above
+    from props import c17
+    ok17, info17 = prove(ctx, "MatidProps.C17", ["Matid.Props.C17.crossValidate_mem", "Matid.Props.C17.refined_has_region"])
+    if not ok17:
+        broken.append(("classifier-dispatch-proof", info17))
+    try:
+        dm = c17.synthetic_dispatch(ctx, ctx.n(300, 5000))
+        if cv_lines:
+            for (name_, rid_), o in zip(cv_real, common.driver(cv_lines)):
+                parts = o.split(" ")
+                ctx.count("recorded_cross_validations")
+                if parts[0] != name_ or (name_ in ("Surface", "Material2D") and int(parts[1].split("=")[1]) != rid_):
+                    dm.append({"what": "cross-validation on the recorded region answers", "model": o, "real": "%s region=%d" % (name_, rid_)})
+    except common.DriverError as e:
+        broken.append(("driver", {"error": str(e)[-800:]}))
+        dm = []
+    if dm:
+        broken.append(("classifier-dispatch-correspondence", {"function": "Classifier.classify / cross_validate_region", "count": len(dm), "mismatches": dm[:3]}))
     if broken and not ctx.unknown_findings():
         ctx.finding("unproved", "conditional theorem no longer checks, no failing structure found", {"kind": "broken-obligation", "broken": broken}, found_input=False)
     ctx.coverage["broken"] = [{"what": k_, "info": i} for k_, i in broken]
